@@ -373,6 +373,22 @@ def _generate_cases(ctx, R, scale, big):
                 R.episode(kind, mno, env, td0, pol, "generator", extra_pad=rng.randint(0, 3))
             for b in range(B):
                 R.episode(kind, mno, env, td0[b:b + 1], rng.choice(POLICIES), "generator", extra_pad=rng.randint(0, 2))
+    # --- long-horizon stream: the clock crosses the library's "not scheduled yet" sentinel INIT_FINISH = 9999, so any
+    #     place where the code relies on `finish_time <= time` being false for unscheduled operations is exercised
+    #     (processing times in the thousands are legal generator parameters and occur in benchmark files)
+    for kind, mno in combos:
+        for rep in range(scale):
+            gp = {"num_jobs": rng.randint(4, 5), "num_machines": 2, "min_ops_per_job": 2, "max_ops_per_job": 3,
+                  "min_processing_time": rng.choice([2500, 3000]), "max_processing_time": rng.choice([4000, 6000])}
+            if kind == "jssp":
+                gp["one2one_ma_map"] = False
+            torch.manual_seed(rng.randrange(2 ** 31))
+            env = R.env(kind, mno, gp)
+            td0 = env.generator(batch_size=[2])
+            ctx.count("fjsp_long_horizon_instances", 2)
+            for pol in POLICIES:
+                R.episode(kind, mno, env, td0, pol, "long-horizon", extra_pad=1)
+            R.episode(kind, mno, env, td0[0:1], "random", "long-horizon", extra_pad=0)
     # --- file-read instances (own writer / documented format -> own parser), different op counts per file => padding
     for kind, mno in combos:
         for rep in range(scale):
